@@ -248,7 +248,7 @@ def make_xr(tbl, layout="coord"):
     import xarray as xr
     n = tbl["n"]
     dv = {}
-    dim = "time" if (layout == "coord" and tbl["t"] is not None) else "obs"
+    dim = "time" if (layout in ("coord", "coord_axes") and tbl["t"] is not None) else "obs"
     for k, v in tbl["cols"].items():
         dv[k] = (dim, np_col(v))
     for k, v in tbl["axes"].items():
@@ -259,6 +259,10 @@ def make_xr(tbl, layout="coord"):
             coords["time"] = np_time(tbl["t"])
         else:
             dv["time"] = (dim, np_time(tbl["t"]))
+    if layout == "coord_axes":
+        # z / lat / lon as non-index coordinates along the time dimension (a common CF layout)
+        for k in list(tbl["axes"]):
+            coords[k] = dv.pop(k)
     return xr.Dataset(dv, coords=coords)
 
 
